@@ -5,12 +5,32 @@
   history of any length, any callback answers, any io readiness):
   * `C11_flush_exclusive`: the two machines are never both in FLUSH_IO_WRITE — the state in which,
     and only in which, a machine calls `io->write`.
-  What is not proved in Lean (sampled by the correspondence check and the unit oracle): that the
-  bytes of one unit spell newline/payload/newline in order without loss (DESIGN.md 8, C11).
+  * `C11_writer`, `C11_one_writer_per_call`: only a machine in that state offers bytes.
+  Units of the command machine (`Proofs/Units.lean`; `remC D s` = the bytes still to be accepted
+  for the unit in progress, `outC log` = the bytes accepted, `FlushInv` = the text is terminated
+  inside the command region and the cursor has not passed its end):
+  * `C11_unit_start`, `C11_unit_start_raw`: a unit, when started, consists of the line break in
+    force, the text in the command region, the line break again (a command-list line: the text);
+    `C11_code_unit`: for a result code that is line break, `OK`/`ERROR`, line break;
+  * `C11_unit_step`: every write step moves an accepted byte from the head of the remainder to the
+    output and nothing else — refused bytes are offered again, nothing is skipped, repeated or
+    truncated — and the machine leaves FLUSH_IO_WRITE exactly when the remainder is empty;
+  * `C11_unit_wait`: waiting for the other machine changes nothing;
+  * `C11_unit_undisturbed`: a step of the unsolicited machine neither changes the remainder (it
+    cannot store into the command region, C03) nor emits a byte of the command machine;
+  * `C11_service_unit`: hence over a whole `cat_service` body, accepted bytes ++ remainder is
+    invariant while the command machine is sending a unit.
+  Not proved in Lean: the same accounting for the unsolicited machine's units (its closing line
+  break follows `cr_flag`, which the command machine may change meanwhile), and that every text is
+  terminated inside the region when its unit starts (`FlushInv` is a hypothesis at the start; it
+  is established here for result codes and by `C06_print_terminates` for printed text) — the
+  unit oracle of the correspondence check covers those on the implementation.
 -/
 import CatVerif.Proofs.Inv
 import CatVerif.Proofs.Log
+import CatVerif.Proofs.Units
 namespace Cat
+open St
 
 /-- Along every history of API operations from `cat_init`, with arbitrary callback answers, the
 command machine and the unsolicited machine are never simultaneously in FLUSH_IO_WRITE. -/
@@ -59,5 +79,55 @@ theorem C11_one_writer_per_call (D : Desc) (s : St) (i : SvcIn)
 machine waits for it -/
 example : ∃ s : St, s.ustate = .flushWrite ∧ s.state = .flushWait ∧ ¬ (s.state = .flushWrite ∧ s.ustate = .flushWrite) :=
   ⟨{ (default : St) with ustate := .flushWrite, state := .flushWait }, rfl, rfl, by simp⟩
+
+/-! ### units of the command machine -/
+
+theorem C11_unit_start (D : Desc) (s : St) (a : After) :
+    remC D (startFlush s .cmd a) = nlStr s ++ payloadC D s ++ nlStr s ∧
+    ((payloadC D s).length < (region D s .cmd 0).length → FlushInv D (startFlush s .cmd a)) :=
+  startFlush_unit D s a
+
+theorem C11_unit_start_raw (D : Desc) (s : St) (a : After) :
+    remC D (startFlushRaw s a) = payloadC D s ∧
+    ((payloadC D s).length < (region D s .cmd 0).length → FlushInv D (startFlushRaw s a)) :=
+  startFlushRaw_unit D s a
+
+theorem C11_code_unit (D : Desc) (s : St) (h6 : 6 ≤ D.cmdCap) (hb : D.cmdCap ≤ s.buf.length) :
+    remC D (ackOk D s) = nlStr s ++ [79, 75] ++ nlStr s ∧ FlushInv D (ackOk D s) ∧
+    remC D (ackError D s) = nlStr s ++ [69, 82, 82, 79, 82] ++ nlStr s ∧ FlushInv D (ackError D s) :=
+  ack_unit D s h6 hb
+
+theorem C11_unit_step (D : Desc) (s : St) (i : SvcIn) (hs : s.state = .flushWrite) (hv : FlushInv D s) :
+    let s' := (commandService D s i).1
+    outC s'.log ++ remC D s' = outC s.log ++ remC D s ∧ s'.buf = s.buf ∧
+    (s'.state = .flushWrite → FlushInv D s') ∧
+    (s'.state ≠ .flushWrite → remC D s = [] ∧ s'.state = s.writeStateAfter.toC) := by
+  unfold commandService; simp only [hs]
+  exact processIoWrite_unit D s i hs hv
+
+theorem C11_unit_wait (D : Desc) (s : St) (i : SvcIn) (hs : s.state = .flushWait) :
+    let s' := (commandService D s i).1
+    remC D s' = remC D s ∧ s'.log = s.log ∧ (FlushInv D s → FlushInv D s') ∧
+    (s'.state = .flushWait ∨ s'.state = .flushWrite) := by
+  unfold commandService; simp only [hs]
+  exact processIoWriteWait_unit D s hs
+
+theorem C11_unit_undisturbed (D : Desc) (s : St) (i : SvcIn) (hu : i.hu.ret ≠ 4) :
+    remC D (unsolicitedEventsService D s i).1 = remC D s ∧
+    (FlushInv D s → FlushInv D (unsolicitedEventsService D s i).1) ∧
+    outC (unsolicitedEventsService D s i).1.log = outC s.log :=
+  ⟨(unsolicitedEventsService_unitSame D s i hu).1.rem, (unsolicitedEventsService_unitSame D s i hu).1.inv,
+   (unsolicitedEventsService_unitSame D s i hu).2⟩
+
+theorem C11_service_unit (D : Desc) (s : St) (i : SvcIn) (hu : i.hu.ret ≠ 4)
+    (hs : s.state = .flushWrite ∨ s.state = .flushWait) (hv : FlushInv D s) :
+    outC (serviceBody D s i).1.log ++ remC D (serviceBody D s i).1 = outC s.log ++ remC D s :=
+  serviceBody_unit D s i hu hs hv
+
+/-- non-vacuity: a state in the middle of `\r\nOK\r\n` with `\r\nO` already accepted -/
+example : ∃ (D : Desc) (s : St), s.state = .flushWrite ∧ FlushInv D s ∧ remC D s = [75, 13, 10] := by
+  refine ⟨{ (default : Desc) with bufSize := 8, unsBuf := some 0 },
+    { (default : St) with state := .flushWrite, writeState := 1, writeSrc := .main, position := 1, crFlag := true,
+                          buf := [79, 75, 0, 0, 0, 0, 0, 0] }, rfl, ⟨by decide, by decide, Or.inr (Or.inl ⟨rfl, rfl⟩)⟩, by decide⟩
 
 end Cat
